@@ -27,7 +27,7 @@ MANIFEST = {
             "ticks outside the range), all multiples of 10^6, a strided sweep with seed-chosen offset and random ticks "
             "(5.2e4 ticks / 2.0e5 sqrt-price probes quick, 3.4e6 ticks / 1.3e7 probes thorough), random sqrt prices with code-supplied bucket edges that TLC verifies "
             "by squaring, RoundDownTickToSpacing / SqrtPriceToTickRoundDownSpacing for authorized and random spacings, "
-            "out-of-range ticks, prices and sqrt prices; constants of types/constants.go are checked against the geometry.",
+            "out-of-range ticks (range ends, far outside, and on / next to every power-of-ten boundary 24 decades beyond each end), prices (incl. the 36-decimal neighbours of the upper bound) and sqrt prices; constants of types/constants.go are checked against the geometry.",
     "note": "Trusted: TLC evaluator, BigNum.tla and its java override (differential-tested by bin/check setup), "
             "Json/IOUtils community modules, the recorder's logging of arguments and answers. The tick range is sampled "
             "(boundary-complete, interior strided), not swept: the statement quantifies over 6.1e8 ticks.",
